@@ -501,9 +501,9 @@ func (w *World) Exec(st Step) {
 		case "ConnStateRes":
 			p = &knxnet.ConnStateRes{Channel: uint8(ch), Status: knxnet.ErrCode(st.St)}
 		case "DiscReq":
-			p = &knxnet.DiscReq{Channel: uint8(ch)}
+			p = &knxnet.DiscReq{Channel: uint8(ch), Status: uint8(st.St)}
 		case "DiscRes":
-			p = &knxnet.DiscRes{Channel: uint8(ch)}
+			p = &knxnet.DiscRes{Channel: uint8(ch), Status: uint8(st.St)}
 		case "ConnRes":
 			p = &knxnet.ConnRes{Channel: uint8(st.N), Status: knxnet.ErrCode(st.St)}
 		}
@@ -689,6 +689,9 @@ func (w *World) Exec(st Step) {
 		if st.Act == "send" {
 			w.Sock.FailSend(true)
 			w.Rec.Simple("SockFail", -1, -1, -1, "send")
+		} else if st.Act == "once" { // a transient local error: the next write of a frame of type Svc fails, later ones succeed
+			w.Sock.FailNext(st.Svc)
+			w.Rec.Simple("SockFail", -1, -1, -1, "once")
 		} else {
 			w.Rec.Simple("SockFail", -1, -1, -1, "inbound")
 			w.Sock.Kill()
